@@ -1,9 +1,9 @@
 SPECIFICATION Spec
 CONSTANTS
-  MaxPayload = 2
+  MaxPayload = 1
   NTxn = 2
   Variants = {"varz", "raw"}
-  Partial = {1, 2, 3, 4, 5}
+  Partial = {1, 3}
   ReopenOnStall = TRUE
 INVARIANT NoViolation
 INVARIANT Structural
